@@ -17,7 +17,7 @@ RULE = ("(a) enumerated: every ordered pair of the 21 prefixes x every ordered p
         "(b) Hypothesis-generated Decimal mantissas (1..25 digits, thorough: ..40) with any prefix pair. "
         "Every case runs +,-,*,neg,abs,scale(to each operand prefix and auto),to_prefixed,number*Prefix, the six "
         "comparisons, hash, int, float against Fraction arithmetic; the same on results of a*b and a+b, and on copies of an "
-        "already used number (model_copy with another prefix / number, copy, deepcopy, field edits of a copy). Non-trivial = operands with different prefixes, "
+        "already used number (model_copy with another prefix / number, copy, deepcopy, field edits of a copy); every 250 cases a batch of refused operations (non-finite / non-numeric operands, x/0 fed back in) runs in the same process first. Non-trivial = operands with different prefixes, "
         "or a mantissa of >15 significant digits, or values within 1e-18 relative of each other; distinct by (a,b) text.")
 ASSUME = ["fractions.Fraction / decimal.Decimal / float(Fraction) of CPython are exact / correctly rounded",
           "tolerance is read as an absolute 1e-20 on the exact values: inside it either answer of a comparison "
@@ -273,7 +273,27 @@ def feats(case):
     return f
 
 
+_NEVAL = [0]
+
+
+def poison():
+    """Operations on prefixed numbers that are refused (non-finite or non-numeric operands, division by zero fed back in): each
+    raises - or returns something else than a Prefixed - and must leave no state behind for the cases that follow."""
+    Prefix, Prefixed, to_prefixed = _h()
+    a = Prefixed(number=Decimal("1.5"), prefix=Prefix(3))
+    for op in (lambda: a + float("inf"), lambda: a * float("nan"), lambda: a - "abc", lambda: a + (a / 0), lambda: (a / 0) * a,
+               lambda: a.scale("bogus"), lambda: a + None, lambda: abs(a / 0), lambda: Prefixed(number=Decimal("NaN"), prefix=Prefix(0)) + a,
+               lambda: a < "x", lambda: to_prefixed("not a number") + a):
+        try:
+            op()
+        except Exception:
+            pass
+
+
 def _eval(res, case):
+    _NEVAL[0] += 1
+    if _NEVAL[0] % 250 == 1:
+        poison()
     for sig, detail in check_case(case):
         res.fail(sig, case, detail)
     res.case(case, nontrivial(case), feats(case), key=repr((case["a"], case["b"])))
